@@ -6,6 +6,12 @@ V = os.path.dirname(os.path.dirname(os.path.abspath(__file__)))
 args = [a for a in sys.argv[1:] if not a.startswith("--")]
 mx = json.load(open(args[0] if args else "/tmp/seedmatrix.json"))
 rows = ["| seed | file(s) | change (first sentence of the author's summary) | reported by |", "|---|---|---|---|"]
+# seeds that are not part of the given matrix run keep the entry of the table that is already in DESIGN.md (a later, partial run)
+prev = {}
+for ln in open(os.path.join(V, "DESIGN.md")):
+    m = re.match(r"\| (C\d\d[a-z]) \| .* \| ([^|]*) \|\s*$", ln)
+    if m:
+        prev[m.group(1)] = m.group(2).strip()
 missed = []
 for sid in sorted(os.listdir(os.path.join(V, "seeded"))):
     mp = os.path.join(V, "seeded", sid, "meta.json")
@@ -31,6 +37,8 @@ for sid in sorted(os.listdir(os.path.join(V, "seeded"))):
             missed.append(sid)
     elif isinstance(r, str):
         rep = r
+    elif sid in prev:
+        rep = prev[sid]
     rows.append("| %s | %s | %s | %s |" % (sid, files, summ, rep))
 txt = "\n".join(rows)
 if "--write" in sys.argv:
